@@ -50,6 +50,10 @@ pub enum FrontKind {
     Nb,
     Async,
     AsyncClassC,
+    /// async + Class C with a radio buffer of 64 / 255 bytes instead of 256 (board (14, 0) only; used by
+    /// the buffer-boundary cases of C05, not by the shared generators)
+    AsyncBuf64,
+    AsyncBuf255,
 }
 
 impl FrontKind {
@@ -58,17 +62,24 @@ impl FrontKind {
             FrontKind::Nb => "nb",
             FrontKind::Async => "async",
             FrontKind::AsyncClassC => "async+classC",
+            FrontKind::AsyncBuf64 => "async+classC/buf64",
+            FrontKind::AsyncBuf255 => "async+classC/buf255",
         }
     }
     pub fn from_name(s: &str) -> FrontKind {
         match s {
             "nb" => FrontKind::Nb,
             "async+classC" => FrontKind::AsyncClassC,
+            "async+classC/buf64" => FrontKind::AsyncBuf64,
+            "async+classC/buf255" => FrontKind::AsyncBuf255,
             _ => FrontKind::Async,
         }
     }
     pub fn is_async(self) -> bool {
         !matches!(self, FrontKind::Nb)
+    }
+    pub fn class_c(self) -> bool {
+        matches!(self, FrontKind::AsyncClassC | FrontKind::AsyncBuf64 | FrontKind::AsyncBuf255)
     }
 }
 
@@ -316,8 +327,8 @@ impl<const P: u8, const G: i8> async_device::radio::PhyRxTx for ARadio<P, G> {
     }
 }
 
-pub struct AsyncFront<const P: u8, const G: i8> {
-    dev: async_device::Device<ARadio<P, G>, ATimer, ScriptRng, 256, 4>,
+pub struct AsyncFront<const P: u8, const G: i8, const N: usize = 256> {
+    dev: async_device::Device<ARadio<P, G>, ATimer, ScriptRng, N, 4>,
     env: Env,
 }
 
@@ -328,21 +339,21 @@ fn norm_async_err<E: std::fmt::Debug>(e: &async_device::Error<E>) -> String {
     }
 }
 
-impl<const P: u8, const G: i8> AsyncFront<P, G> {
+impl<const P: u8, const G: i8, const N: usize> AsyncFront<P, G, N> {
     pub fn new(cfg: &DevCfg, env: Env, session: Option<&Value>) -> Result<Self, String> {
         let session: Option<Session> = match session {
             Some(v) => Some(serde_json::from_value(v.clone()).map_err(|e| e.to_string())?),
             None => None,
         };
         let mut dev = async_device::Device::new_with_session(cfg.region_configuration(), ARadio::<P, G> { env: env.clone() }, ATimer { env: env.clone() }, ScriptRng(env.clone()), session);
-        if cfg.front == FrontKind::AsyncClassC {
+        if cfg.front.class_c() {
             dev.enable_class_c();
         }
         Ok(AsyncFront { dev, env })
     }
 }
 
-impl<const P: u8, const G: i8> Front for AsyncFront<P, G> {
+impl<const P: u8, const G: i8, const N: usize> Front for AsyncFront<P, G, N> {
     fn env(&self) -> Env {
         self.env.clone()
     }
@@ -706,6 +717,12 @@ pub fn make_front(cfg: &DevCfg, env: Env, session: Option<&Value>) -> Result<Box
                 _ => Ok(Box::new(AsyncFront::<$p, $g>::new(cfg, env, session)?) as Box<dyn Front>),
             }
         };
+    }
+    match (cfg.front, cfg.board) {
+        (FrontKind::AsyncBuf64, (14, 0)) => return Ok(Box::new(AsyncFront::<14, 0, 64>::new(cfg, env, session)?) as Box<dyn Front>),
+        (FrontKind::AsyncBuf255, (14, 0)) => return Ok(Box::new(AsyncFront::<14, 0, 255>::new(cfg, env, session)?) as Box<dyn Front>),
+        (FrontKind::AsyncBuf64 | FrontKind::AsyncBuf255, other) => return Err(format!("small radio buffers are only monomorphised for board (14, 0), not {other:?}")),
+        _ => {}
     }
     match cfg.board {
         (14, 0) => mk!(14, 0),
